@@ -91,10 +91,134 @@ def ob_ranges(chk, P):
         ob.absorb(ex)
 
 
+# ---------------------------------------------------------------- every standard filter on every kind of input and argument
+def stdlib_filter_structs(repo=None):
+    """{FilterType: (liquid name, [(arg field, is_optional)])} read from the sources under stdlib/filters (struct definitions and #[filter(name = .., parsed(..))])"""
+    import glob, os, re
+    from mirsym.program import REPO
+    structs, names = {}, {}
+    for fn in glob.glob(os.path.join(repo or REPO, 'crates/lib/src/stdlib/filters/**/*.rs'), recursive=True):
+        src = re.sub(r'//[^\n]*', '', open(fn).read())
+        for m in re.finditer(r'#\[filter\(\s*name\s*=\s*"([^"]+)"(?:[^\[\]"]|"(?:[^"\\]|\\[\s\S])*")*?parsed\((\w+)\)', src):
+            names[m.group(2)] = m.group(1)
+        src = re.sub(r'#\[(?:[^\[\]"]|"(?:[^"\\]|\\[\s\S])*")*\]', '', src)
+        for m in re.finditer(r'struct (\w+)\s*(\{([^{}]*)\}|;)', src):
+            structs[m.group(1)] = [(fm.group(1), fm.group(2).strip()) for fm in re.finditer(r'(\w+)\s*:\s*([^,]+),?', m.group(3) or '')]
+    out = {}
+    for ty, fields in structs.items():
+        if ty not in names: continue
+        args = structs.get(fields[0][1], []) if fields else []
+        out[ty] = (names[ty], fields[0][1] if fields else None, [(a, 'Option' in t) for a, t in args])
+    return out
+
+
+SWEEP_INPUT_KINDS = ['nil', 'bool', 'int', 'float', 'str0', 'str2', 'array', 'object']
+SWEEP_ARG_KINDS = ['nil', 'int', 'str1', 'float', 'array']
+
+
+def sweep_value(kind, st, tag):
+    """(value, concretiser(model) -> python datum)"""
+    from mirsym.models.strings import valid_char
+    from mirsym.models.maps import MapV
+    from checks.C13 import str_value
+    ev = lambda m, e: m.eval(e, model_completion=True)
+    if kind == 'nil': return VALUE_NIL, lambda m: None
+    if kind == 'bool':
+        b = z3.Bool(f'{tag}_b'); return value_scalar(scalar_bool(Bool(b))), lambda m: z3.is_true(ev(m, b))
+    if kind == 'int':
+        i = z3.BitVec(f'{tag}_i', 64); return value_scalar(scalar_int(Int(i, 'i64'))), lambda m: ev(m, i).as_signed_long()
+    if kind == 'float':
+        f = z3.FP(f'{tag}_f', z3.Float64())
+        def conc(m):
+            import struct
+            bits = ev(m, z3.fpToIEEEBV(f)).as_long(); x = struct.unpack('<d', struct.pack('<Q', bits))[0]
+            return x if x == x and abs(x) != float('inf') else 1.5
+        return value_scalar(scalar_float(Float(f))), conc
+    if kind.startswith('str'):
+        cs = [z3.BitVec(f'{tag}_c{i}', 32) for i in range(int(kind[3:]))]
+        for c in cs: st.assume(valid_char(c))
+        return str_value(cs), lambda m: ''.join(chr(ev(m, c).as_long()) for c in cs)
+    if kind == 'array':
+        a = z3.BitVec(f'{tag}_a0', 64)
+        return Adt('Value', 'Array', [VecV([value_scalar(scalar_int(Int(a, 'i64'))), VALUE_NIL], 'Vec')]), lambda m: [ev(m, a).as_signed_long(), None]
+    if kind == 'object':
+        pv = z3.BitVec(f'{tag}_p', 64)
+        return Adt('Value', 'Object', [MapV(['p'], [value_scalar(scalar_int(Int(pv, 'i64')))], 'Object')]), lambda m: {'p': ev(m, pv).as_signed_long()}
+    raise ValueError(kind)
+
+
+def ob_filter_sweep(chk, P):
+    import json, os
+    from mirsym.exec import BoundHit
+    base_file = os.path.join(os.path.dirname(os.path.abspath(__file__)), 'C02_uncovered.json')
+    baseline = json.load(open(base_file)) if os.path.exists(base_file) else {}
+    with chk.obligation('stdlib-filters/every-kind', 'every standard filter (all Filter::evaluate bodies under stdlib/filters, found in the MIR) applied to an input of every kind with arguments of every kind '
+                        'returns a value or an error: no reachable panic (overflow, division by zero, out-of-range index, slicing inside a character, unwrap/expect)',
+                        {'input': 'nil, any boolean, any i64, any f64 (NaN and infinities included), the empty string, two arbitrary characters, a two-element array [any i64, nil], an object {p: any i64}',
+                         'arguments': 'each declared argument independently: nil, any i64, one arbitrary character, any f64, an array; optional arguments also absent',
+                         'not covered': 'combinations whose execution needs a string operation on the PRINTED form of a number/array/object (opaque in this executor): listed in checks/C02_uncovered.json; '
+                                        'a combination that stops being executable and is not in that list makes the obligation inconclusive'}) as ob:
+        ex = Executor(P, models_with([])); ex.seed = chk.seed; ex.max_steps = 60000
+        S = stdlib_filter_structs()
+        filters = []
+        for f in P.by_short.get('evaluate', []):
+            if f.crate != 'lib' or 'stdlib/filters' not in f.name: continue
+            tr, ty = P.header(f)
+            if tr == 'Filter': filters.append((ty, f))
+        if len(filters) < 40: raise Unsupported(f'only {len(filters)} stdlib filters found in the MIR')
+        uncovered = {}; ran = 0
+        for ty, fn in sorted(filters, key=lambda x: x[0]):
+            if ty not in S: raise Unsupported(f'no struct/#[filter] declaration found in the sources for {ty}')
+            lname, argsty, argfields = S[ty]
+            for ik in SWEEP_INPUT_KINDS:
+                for aks in itertools.product(*[SWEEP_ARG_KINDS + (['absent'] if opt else []) for _, opt in argfields]):
+                    st = State()
+                    inp, cin = sweep_value(ik, st, 'in')
+                    concs = []
+                    if argsty:
+                        items = []
+                        for (an, opt), ak in zip(argfields, aks):
+                            if ak == 'absent':
+                                items.append(NONE); concs.append(None); continue
+                            v, c = sweep_value(ak, st, 'a_' + an); concs.append(c)
+                            e = expr_stub(v, an); items.append(Some(e) if opt else e)
+                        self_ = Adt(ty, None, [Adt(argsty, None, items, [a for a, _ in argfields])], ['args'])
+                    else:
+                        self_ = Adt(ty, None, [])
+                    key = f'{ty}|{ik}|{",".join(aks)}'
+                    try:
+                        for s2, kind, val in ex.run(fn, [st.ref(self_), st.ref(inp), st.ref(Opaque(('RT',)))], st):
+                            ob.paths += 1; ob.reached()
+                            if kind == 'panic':
+                                m = ob.decide(ex, s2.conds, z3.BoolVal(True))
+                                if m is None: continue
+                                g = {'x': cin(m)}; call = lname; used = []
+                                for i, c in enumerate(concs):
+                                    if c is None: break
+                                    g[f'a{i}'] = c(m); used.append(f'a{i}')
+                                if used: call += ': ' + ', '.join(used)
+                                ob.violation(f'{lname}/panic', f'{lname} panics ({val}) on input {g["x"]!r} with arguments {[g[u] for u in used]}', {'filter': lname, 'globals': g},
+                                             {'kind': 'template', 'parser': 'stdlib', 'template': '{{ x | ' + call + ' }}', 'globals': g}, lambda r: r.get('outcome') == 'panic')
+                            elif not (kind == 'ret' and isinstance(val, Adt) and val.variant in ('Ok', 'Err')):
+                                ob.inconclusive(f'{key}: unexpected outcome {kind} {val}')
+                        ran += 1
+                    except (Unsupported, BoundHit) as e:
+                        uncovered[key] = str(e)[:60]
+            ob.sample({'filter': lname, 'type': ty, 'arguments': [a + ('?' if o else '') for a, o in argfields]})
+        new_unc = sorted(k for k in uncovered if k not in baseline)
+        ob.bounds['combinations executed'] = ran; ob.bounds['combinations not covered (in the committed list)'] = len(uncovered) - len(new_unc)
+        if os.environ.get('VERIF_WRITE_BASELINE'):
+            json.dump(uncovered, open(base_file, 'w'), indent=0, sort_keys=True)
+        elif new_unc:
+            ob.inconclusive(f'{len(new_unc)} combination(s) cannot be executed and are not in the committed not-covered list, e.g. {new_unc[0]}: {uncovered[new_unc[0]]}')
+        ob.absorb(ex)
+
+
 def run(chk):
     P = chk.program(('core', 'lib'))
     ob_cycle(chk, P)
     ob_ranges(chk, P)
+    ob_filter_sweep(chk, P)
     # kernels owned by other properties, re-run here for their panic-freedom clause (same obligations, same oracles)
     from checks import C05, C07, C13, C15
     chk.role_filter = lambda role: 'panic' in role          # C02 only claims totality; wrong values belong to the owning property
